@@ -126,8 +126,8 @@ def u_affine(rec, spec, a_value=None):
                 ea, eb = sj.force(VA[t + 1][idx]), sj.force(VB[t + 1][idx])
                 if is_tagged(ea) and is_tagged(eb):
                     W = z3.Real(f"W{t+1}_{k}")
-                    ma[ea.get_id()] = W
-                    mb[eb.get_id()] = a * W + b * geo_next
+                    ma[ea.get_id()] = (ea, W)
+                    mb[eb.get_id()] = (eb, a * W + b * geo_next)
         for idx in np.ndindex(*VA[t].shape):
             ea, eb = VA[t][idx], VB[t][idx]
             if isinstance(sj.force(ea), sj.XR) or isinstance(sj.force(eb), sj.XR):
@@ -315,8 +315,8 @@ def u_degenerate(rec, T):
                 ea, eb = sj.force(Vs[t + 1][idx]), sj.force(Vd[t + 1][idx])
                 if is_tagged(ea) and is_tagged(eb):
                     W = z3.Real(f"W{t+1}_{k}")
-                    ma[ea.get_id()] = W
-                    mb[eb.get_id()] = W
+                    ma[ea.get_id()] = (ea, W)
+                    mb[eb.get_id()] = (eb, W)
         for idx in np.ndindex(*Vs[t].shape):
 
             def replay(vals, t=t, idx=idx):
